@@ -97,7 +97,7 @@ Inductive pop :=
 | PDestroy (wt : option Z).
 
 Inductive pres :=
-| RRefused                     (* false / -1 with EINVAL, decided by the object itself *)
+| RRefused                     (* the object itself declines (wrong state): the call fails - false / -1 - and nothing happens *)
 | RBool (b : bool)
 | RJoin (code : Z)             (* join: true and the exit code *)
 | RIo (n : Z)                  (* read/write: what the system call returned *)
@@ -174,4 +174,28 @@ Definition lstep (st : lstate) (o : pop) : pres * lstate :=
     | PIsRunning => (RBool true, st)
     | PDestroy _ => (RUnit, LIdle)                           (* a destroyed object holds nothing *)
     end
+  end.
+
+(* What the CALLER sees of an answer - the observation the property is judged on.  The property text
+   speaks about processes that were started; about misuse of the object (join/kill/read without a
+   process, open/start on a running one) it says nothing, and it names no errno anywhere.  What a
+   caller can rely on is that such a call FAILS the way the interface has it - false from
+   open/start/join/kill, -1 from read/write - and (state component of lstep) that nothing changes.
+   That the failure was decided by the object itself before any system call (RRefused; in the code
+   as it is: errno EINVAL) is a model-level detail: the refinement theorems keep it, the oracle of
+   the check compares `seen` results only and leaves the errno to the model section. *)
+Definition seen (o : pop) (r : pres) : pres :=
+  match r with
+  | RRefused =>
+    match o with
+    | PRead _ | PRead2 _ _ _ | PWrite _ => RIo (-1)
+    | _ => RBool false
+    end
+  | _ => r
+  end.
+
+Fixpoint seen_all (ops : list pop) (rs : list pres) : list pres :=
+  match ops, rs with
+  | o :: ops', r :: rs' => seen o r :: seen_all ops' rs'
+  | _, _ => rs
   end.
